@@ -24,6 +24,7 @@ type caseResult struct {
 	diags   []harness.Diag
 	crashes []*harness.Crash
 	hang    bool
+	fatal   *fatalCase
 	set     *harness.Set
 }
 
@@ -99,14 +100,27 @@ func runCorpus(gen func(emit func(progenum.Prog)), opts runOpts, handle func(*ca
 		}
 		return s
 	}
+	skips := loadFatalSkips()
+	curDir := os.Getenv("VERIF_CUR_DIR")
 	var wg sync.WaitGroup
 	for w := 0; w < nw; w++ {
 		wg.Add(1)
-		go func() {
+		go func(w int) {
 			defer wg.Done()
 			set := newSet()
+			curFile := ""
+			if curDir != "" {
+				curFile = filepath.Join(curDir, fmt.Sprintf("cur-%d.json", w))
+			}
 			for p := range ch {
 				p := p
+				if fc, ok := skips[p.ID]; ok {
+					// this program kills the process with an unrecoverable runtime error (confirmed alone by the supervisor)
+					atomic.AddInt64(&st.ran, 1)
+					st.fam(p.Fam, true)
+					handle(&caseResult{prog: &p, fatal: &fc, crashes: []*harness.Crash{{Checker: fatalChecker(fc.Frame), Value: fc.Class, Frame: fc.Frame, Stack: fc.Class}}, set: set})
+					continue
+				}
 				allow := opts.allowErrors != nil && opts.allowErrors(&p)
 				if !allow && !harness.Precheck(p.Path, p.Files) {
 					atomic.AddInt64(&st.illTyped, 1)
@@ -125,6 +139,10 @@ func runCorpus(gen func(emit func(progenum.Prog)), opts runOpts, handle func(*ca
 					pk.Release()
 					continue
 				}
+				if curFile != "" {
+					data, _ := json.Marshal(progReplay(&p, ""))
+					os.WriteFile(curFile, data, 0o644)
+				}
 				diags, crashes, hang := set.VisitAllWatchdog(pk)
 				atomic.AddInt64(&st.ran, 1)
 				st.fam(p.Fam, true)
@@ -135,10 +153,21 @@ func runCorpus(gen func(emit func(progenum.Prog)), opts runOpts, handle func(*ca
 					pk.Release()
 				}
 			}
-		}()
+		}(w)
 	}
 	wg.Wait()
 	return st
+}
+
+func fatalChecker(frame string) string {
+	// "checkers.(*sqlQueryChecker).typeHasExecMethod" -> sqlQuery
+	if i := strings.Index(frame, "(*"); i >= 0 {
+		rest := frame[i+2:]
+		if j := strings.Index(rest, "Checker)"); j >= 0 {
+			return rest[:j]
+		}
+	}
+	return "fatal"
 }
 
 // ---------------------------------------------------------------------------------------------
